@@ -59,7 +59,9 @@ def bounds(tier):
                 randomize_action_order=[False, True], randomize_nextstate_order=[False, True], max_lao_star_iterations='S+3')
 
 
-def full_run(sx, shape, rsel, rao, rno, hkind='sym'):
+def full_run(sx, shape, rsel, rao, rno, hkind='sym', warm=False):
+    """warm=True: the same LAOStar object first plans on a different problem over the same labels (other reward menu, state 1
+    absorbing there); the statement is per plan_on call"""
     sh, menus = SHAPES[shape]
     Ls, AL = sh.slabels, sh.alabels
     from msdm.algorithms.laostar import LAOStar
@@ -82,6 +84,11 @@ def full_run(sx, shape, rsel, rao, rno, hkind='sym'):
                           randomize_action_order=rao, randomize_nextstate_order=rno, seed=23)
         with warnings.catch_warnings():
             warnings.simplefilter('ignore')
+            if warm:
+                shw = sh.with_(absorb=sorted(set(sh.absorb) | {1}))
+                rmw = menus[1 - rsel]
+                with sx.must_not_raise('plan_on(first problem)'):
+                    planner.plan_on(build_mdp(sx, shw, {(s, a, ns): sx.const(rmw[(s, a)]) for s in range(sh.S) for a in sh.avail[s] for ns in sh.rows[(s, a)]}))
             with sx.must_not_raise('plan_on'):
                 res = planner.plan_on(mdp)
         sx.prove(bool(res.converged), 'reports-convergence')
@@ -131,3 +138,5 @@ def jobs(tier):
                         continue
                     yield ('full_run', dict(shape=i, rsel=r, rao=rao, rno=rno), dict(o, cost=sh.S))
             yield ('full_run', dict(shape=i, rsel=r, rao=True, rno=True, hkind='zero'), o)
+            if all(v <= 0 for m in menus for v in m.values()) and (i in (1, 3) or tier != 'quick'):
+                yield ('full_run', dict(shape=i, rsel=r, rao=True, rno=False, hkind='zero', warm=True), o)
